@@ -65,12 +65,7 @@ static JanetTable *tab_any_table(int32_t cap, JanetTable *proto) {
  *   ensures  t->data is a NEW exact block of size buckets without tombstones, old block released, capacity == size,
  *            deleted == 0, count unchanged, wf_dict, and every key of the universe maps to the same value as before */
 static int32_t g_rh_calls;
-void tab_rehash_contract(JanetTable *t, int32_t size) {
-  g_rh_calls++;
-  __CPROVER_assert(tab_wf_table(t, TAB_RH_NOLOAD), "C04 rehash precondition: table well-formed");
-  __CPROVER_assert(tab_pow2(size) && size >= t->count && size <= TAB_NEWMAX, "C04 rehash precondition: new size is a power of two with room for every entry (and within the capacities units tab.rehash.* cover)");
-  Janet oldv[TAB_K + 1];
-  for (int k = 0; k <= TAB_K; k++) oldv[k] = tab_lookup(t->data, t->capacity, k);
+static void tab_rehash_model(JanetTable *t, int32_t size, const Janet *oldv) {   /* size: a constant at every call */
   JanetKV *nb = tab_any_buckets(size);
   int32_t nl, nt;
   __CPROVER_assume(tab_wf_dict(nb, size, &nl, &nt) && nt == 0);
@@ -79,6 +74,21 @@ void tab_rehash_contract(JanetTable *t, int32_t size) {
   t->data = nb;
   t->capacity = size;
   t->deleted = 0;
+}
+void tab_rehash_contract(JanetTable *t, int32_t size) {
+  g_rh_calls++;
+  __CPROVER_assert(tab_wf_table(t, TAB_RH_NOLOAD), "C04 rehash precondition: table well-formed");
+  __CPROVER_assert(tab_pow2(size) && size >= t->count && size <= TAB_NEWMAX, "C04 rehash precondition: new size is a power of two with room for every entry (and within the capacities units tab.rehash.* cover)");
+  Janet *oldv = malloc((TAB_K + 1) * sizeof(Janet));
+  __CPROVER_assume(oldv != TAB_NULL);
+  for (int k = 0; k <= TAB_K; k++) oldv[k] = tab_lookup(t->data, t->capacity, k);
+  /* one case per size so that the block size and every loop bound over it are constants */
+  if (size == 1) tab_rehash_model(t, 1, oldv);
+  else if (size == 2) tab_rehash_model(t, 2, oldv);
+  else if (size == 4) tab_rehash_model(t, 4, oldv);
+  else if (size == 8) tab_rehash_model(t, 8, oldv);
+  else if (size == 16) tab_rehash_model(t, 16, oldv);
+  else __CPROVER_assume(0);                                       /* excluded by the asserted precondition (TAB_NEWMAX <= 16) */
 }
 
 #define GHOST(g) int g = nd_int(); __CPROVER_assume(g >= 1 && g <= TAB_K)
@@ -256,22 +266,9 @@ void h_table_clear(void) {
 #endif
 }
 
-/* ================= janet_table_rehash (static) under its contract ================= */
-void h_table_rehash(void) {
-  tab_init();
-  JanetTable *dang = tab_dangling();
-  JanetTable *t = tab_any_table(TAB_CAP, dang);
-#ifdef TAB_LOCAL
-  t->gc.flags = TAB_LOCAL ? JANET_TABLE_FLAG_STACK : 0;
-#endif
-  __CPROVER_assume(tab_wf_table(t, TAB_RH_NOLOAD));                /* requires wf_table (TAB_RH_NOLOAD: without the load clause) */
-#ifdef TAB_SIZE
-  int32_t size = TAB_SIZE;                                         /* one unit per new size: loop bounds are constants */
-#else
-  int32_t size = nd_i32();
-#endif
-  __CPROVER_assume(tab_pow2(size) && size >= t->count && size <= TAB_NEWMAX);
-  GHOST(g);
+/* ================= janet_table_rehash (static) under its contract =================
+ * one call site per new size (a constant there, so the block size and the loop bounds over it are constants) */
+static void tab_rehash_case(JanetTable *t, int32_t size, int g, JanetTable *dang) {
   Janet old_g = tab_lookup(t->data, TAB_CAP, g);
   int32_t oc = t->count, od = t->deleted;
   JanetKV *odata = t->data;
@@ -280,16 +277,30 @@ void h_table_rehash(void) {
 
   int32_t nl, nt;
   __CPROVER_assert(t->capacity == size && tab_exact_block(t) && t->data != odata, "C04 rehash: data is a new heap block of exactly size buckets");
-  __CPROVER_assert(tab_wf_dict(t->data, t->capacity, &nl, &nt), "C04 rehash establishes wf_dict on the new block (distinct keys, probe paths)");
+  __CPROVER_assert(tab_wf_dict(t->data, size, &nl, &nt), "C04 rehash establishes wf_dict on the new block (distinct keys, probe paths)");
   __CPROVER_assert(nt == 0 && t->deleted == 0, "C04 rehash: no tombstones, deleted == 0");
   __CPROVER_assert(t->count == oc && nl == oc, "C04 rehash: count unchanged and exact");
-  __CPROVER_assert(tab_lookup(t->data, t->capacity, g).u64 == old_g.u64, "C04 rehash preserves the view: every key maps to the same value");
+  __CPROVER_assert(tab_lookup(t->data, size, g).u64 == old_g.u64, "C04 rehash preserves the view: every key maps to the same value");
   __CPROVER_assert(t->proto == dang, "C04 rehash: prototype untouched");
   REACH("rehash returns");
-#if TAB_CAP >= 2
   if (od > 0 && oc > 0 && size > TAB_CAP) REACH("rehash grows a table with tombstones");
-#endif
-#if TAB_CAP >= 4
   if (oc > 1 && size < TAB_CAP) REACH("rehash shrinks a table");
+}
+void h_table_rehash(void) {
+  tab_init();
+  JanetTable *dang = tab_dangling();
+  JanetTable *t = tab_any_table(TAB_CAP, dang);
+#ifdef TAB_LOCAL
+  t->gc.flags = TAB_LOCAL ? JANET_TABLE_FLAG_STACK : 0;
 #endif
+  __CPROVER_assume(tab_wf_table(t, TAB_RH_NOLOAD));                /* requires wf_table (TAB_RH_NOLOAD: without the load clause) */
+  int32_t size = nd_i32();
+  __CPROVER_assume(tab_pow2(size) && size >= t->count && size <= TAB_NEWMAX);
+  GHOST(g);
+  if (size == 1) tab_rehash_case(t, 1, g, dang);
+  else if (size == 2) tab_rehash_case(t, 2, g, dang);
+  else if (size == 4) tab_rehash_case(t, 4, g, dang);
+  else if (size == 8) tab_rehash_case(t, 8, g, dang);
+  else if (size == 16) tab_rehash_case(t, 16, g, dang);
+  else __CPROVER_assert(0, "C04 rehash unit: TAB_NEWMAX <= 16");
 }
